@@ -450,4 +450,515 @@ theorem mem_keys_insertAll (k : String) (ps : List (String × TVal)) :
   rw [alookup_insertAll, ← lastVal_isSome_iff]
   cases lastVal k ps <;> simp [alookup]
 
+theorem akeys_ainsert {α} (k : String) (v : α) (m : List (String × α)) :
+    akeys (ainsert k v m) = if k ∈ akeys m then akeys m else akeys m ++ [k] := by
+  induction m with
+  | nil => simp [ainsert, akeys]
+  | cons p r ih =>
+    obtain ⟨k', v'⟩ := p
+    simp only [akeys] at ih
+    by_cases h : k' = k
+    · simp [ainsert, akeys, h]
+    · have h' : ¬ k = k' := fun e => h e.symm
+      by_cases hm : k ∈ List.map (fun x => x.fst) r <;> simp_all [ainsert, akeys]
+
+theorem nodup_akeys_ainsert {α} (k : String) (v : α) (m : List (String × α)) (h : (akeys m).Nodup) :
+    (akeys (ainsert k v m)).Nodup := by
+  rw [akeys_ainsert]
+  split
+  · exact h
+  · next hk =>
+    rw [List.nodup_append]
+    refine ⟨h, by simp, ?_⟩
+    intro a ha b hb
+    simp at hb; subst hb
+    intro e; subst e; exact hk ha
+
+/-- a Go map holds every key once: so does the model's result -/
+theorem nodup_keys_insertAll (ps m : List (String × TVal)) (h : (akeys m).Nodup) :
+    (akeys (insertAll ps m)).Nodup := by
+  induction ps generalizing m with
+  | nil => exact h
+  | cons p r ih => exact ih _ (nodup_akeys_ainsert p.1 p.2 m h)
+
+/-! ### `NewSet` -/
+
+/-- the members, when every element is a Go string -/
+def allStrs : List TVal → Option (List String)
+  | [] => some []
+  | .str k :: r => (allStrs r).map (k :: ·)
+  | _ => none
+
+def sinsertAll (ks : List String) (s : List String) : List String :=
+  ks.foldl (fun s k => sinsert k s) s
+
+theorem setLoop_of_strs (xs : List TVal) (m ks : List String) (h : allStrs xs = some ks) :
+    setLoop xs m = .ok (sinsertAll ks m) := by
+  induction xs, m using setLoop.induct generalizing ks with
+  | case1 m => simp [allStrs] at h; subst h; rfl
+  | case2 k rest m ih =>
+    simp only [allStrs, Option.map_eq_some_iff] at h
+    obtain ⟨ks', hks, rfl⟩ := h
+    simpa [setLoop, sinsertAll] using ih ks' hks
+  | case3 x t m h1 =>
+    cases x <;> first | (simp [allStrs] at h; done) | exact (h1 _ rfl).elim
+
+theorem setLoop_bad (xs : List TVal) (m : List String) (h : allStrs xs = none) :
+    setLoop xs m = .err .badSetItem := by
+  induction xs, m using setLoop.induct with
+  | case1 m => simp [allStrs] at h
+  | case2 k rest m ih =>
+    simp only [allStrs, Option.map_eq_none_iff] at h
+    simpa [setLoop] using ih h
+  | case3 x t m h1 =>
+    unfold setLoop
+    split <;> simp_all
+
+theorem allStrs_isSome_iff (xs : List TVal) :
+    (∃ ks, allStrs xs = some ks) ↔ ∀ x ∈ xs, ∃ s, x = .str s := by
+  induction xs with
+  | nil => simp [allStrs]
+  | cons x r ih =>
+    cases x with
+    | str k =>
+      simp only [allStrs, Option.map_eq_some_iff, List.mem_cons, forall_eq_or_imp]
+      constructor
+      · rintro ⟨_, ks, hks, _⟩
+        exact ⟨⟨k, rfl⟩, ih.mp ⟨ks, hks⟩⟩
+      · rintro ⟨_, h⟩
+        obtain ⟨ks, hks⟩ := ih.mpr h
+        exact ⟨_, ks, hks, rfl⟩
+    | _ => simp [allStrs]
+
+/-- `NewSet(nil)`: the ZERO set — its Go map is nil (not an empty map).  Reading it (`len`, `range`, lookup) is the
+    same as reading an empty map; a direct write would panic, which is why `conj` / `assoc` / `dissoc` in core.go
+    work on a `copy_set` -/
+theorem newSet_nil : newSet .nil = .ok (.set none .nil) := rfl
+
+theorem newSet_of_seq (v : TVal) (xs : List TVal) (h : seqElems v = some xs) :
+    newSet v = (setLoop xs []).map fun m => .set (some m) .nil := by
+  cases v <;> simp_all [seqElems, newSet, getSlice, Out.bind]
+
+/-- neither nil nor a sequence (a set, a hash-map, a string …): the `GetSlice` error -/
+theorem newSet_notSeq (v : TVal) (hn : v ≠ .nil) (h : seqElems v = none) : newSet v = .err .notSeq := by
+  cases v <;> simp_all [seqElems, newSet, getSlice, Out.bind]
+
+/-- a member that is not a Go string -/
+theorem newSet_badItem (v : TVal) (xs : List TVal) (h : seqElems v = some xs) (hb : allStrs xs = none) :
+    newSet v = .err .badSetItem := by
+  rw [newSet_of_seq v xs h, setLoop_bad xs [] hb]; rfl
+
+/-- the success case on a sequence: a NON-nil map holding the members, `Meta` nil -/
+theorem newSet_ok (v : TVal) (xs : List TVal) (ks : List String) (h : seqElems v = some xs)
+    (hk : allStrs xs = some ks) : newSet v = .ok (.set (some (sinsertAll ks [])) .nil) := by
+  rw [newSet_of_seq v xs h, setLoop_of_strs xs [] ks hk]; rfl
+
+theorem newSet_ok_iff (v : TVal) :
+    (∃ r, newSet v = .ok r) ↔ v = .nil ∨ ∃ xs, seqElems v = some xs ∧ ∀ x ∈ xs, ∃ s, x = .str s := by
+  constructor
+  · rintro ⟨r, hr⟩
+    by_cases hn : v = .nil
+    · exact .inl hn
+    · cases hs : seqElems v with
+      | none => rw [newSet_notSeq v hn hs] at hr; cases hr
+      | some xs =>
+        refine .inr ⟨xs, rfl, ?_⟩
+        cases hk : allStrs xs with
+        | some ks => exact (allStrs_isSome_iff xs).mp ⟨ks, hk⟩
+        | none => rw [newSet_badItem v xs hs hk] at hr; cases hr
+  · rintro (rfl | ⟨xs, hs, hk⟩)
+    · exact ⟨_, newSet_nil⟩
+    · obtain ⟨ks, hks⟩ := (allStrs_isSome_iff xs).mpr hk
+      exact ⟨_, newSet_ok v xs ks hs hks⟩
+
+/-- the result's Go map is nil exactly when the argument was nil -/
+theorem newSet_nilMap_iff (v : TVal) (ks : Option (List String)) (md : TVal) (h : newSet v = .ok (.set ks md)) :
+    (ks = none ↔ v = .nil) ∧ md = .nil := by
+  by_cases hn : v = .nil
+  · subst hn; rw [newSet_nil] at h; cases h; simp
+  · cases hs : seqElems v with
+    | none => rw [newSet_notSeq v hn hs] at h; cases h
+    | some xs =>
+      cases hk : allStrs xs with
+      | none => rw [newSet_badItem v xs hs hk] at h; cases h
+      | some ks' => rw [newSet_ok v xs ks' hs hk] at h; cases h; simp [hn]
+
+theorem newSet_never_panics (v : TVal) : (newSet v).isPanic = false := by
+  by_cases hn : v = .nil
+  · subst hn; rfl
+  · cases hs : seqElems v with
+    | none => rw [newSet_notSeq v hn hs]; rfl
+    | some xs =>
+      cases hk : allStrs xs with
+      | none => rw [newSet_badItem v xs hs hk]; rfl
+      | some ks => rw [newSet_ok v xs ks hs hk]; rfl
+
+theorem mem_sinsert (a k : String) (s : List String) : a ∈ sinsert k s ↔ a ∈ s ∨ a = k := by
+  unfold sinsert
+  split
+  · next h =>
+    have : k ∈ s := by simpa using h
+    constructor
+    · exact .inl
+    · rintro (h | rfl) <;> assumption
+  · simp
+
+/-- the members of the result are exactly the members given … -/
+theorem mem_sinsertAll (a : String) (ks s : List String) : a ∈ sinsertAll ks s ↔ a ∈ s ∨ a ∈ ks := by
+  induction ks generalizing s with
+  | nil => simp [sinsertAll]
+  | cons k r ih =>
+    simp only [sinsertAll, List.foldl_cons] at ih ⊢
+    rw [ih, mem_sinsert]
+    simp only [List.mem_cons]
+    constructor
+    · rintro ((h | h) | h)
+      · exact .inl h
+      · exact .inr (.inl h)
+      · exact .inr (.inr h)
+    · rintro (h | h | h)
+      · exact .inl (.inl h)
+      · exact .inl (.inr h)
+      · exact .inr h
+
+theorem nodup_sinsert (k : String) (s : List String) (h : s.Nodup) : (sinsert k s).Nodup := by
+  unfold sinsert
+  split
+  · exact h
+  · next hk =>
+    rw [List.nodup_append]
+    refine ⟨h, by simp, ?_⟩
+    intro a ha b hb
+    simp at hb; subst hb
+    intro e; subst e
+    exact hk (by simpa using ha)
+
+/-- … each once -/
+theorem nodup_sinsertAll (ks s : List String) (h : s.Nodup) : (sinsertAll ks s).Nodup := by
+  induction ks generalizing s with
+  | nil => exact h
+  | cons k r ih => exact ih _ (nodup_sinsert k s h)
+
+/-! ### `ConvertFrom` / `ConvertTo` -/
+
+theorem convertFrom_list (xs : List TVal) (m : TVal) (c : Option Pos) : convertFrom (.list xs m c) = .ok (xs, m) := rfl
+theorem convertFrom_vec (xs : List TVal) (m : TVal) (c : Option Pos) : convertFrom (.vec xs m c) = .ok (xs, m) := rfl
+theorem convertFrom_set (ks : Option (List String)) (m : TVal) :
+    convertFrom (.set ks m) = .ok ((setKeys ks).map .str, m) := rfl
+
+/-- `ConvertFrom` never panics; it fails exactly on what is not a set, a list, a vector (hash-maps included) -/
+theorem convertFrom_total (v : TVal) :
+    (∃ xs m, convertFrom v = .ok (xs, m)) ∨ convertFrom v = .err (.convFrom (typeName v)) := by
+  cases v <;> simp [convertFrom]
+
+theorem convertFrom_never_panics (v : TVal) : (convertFrom v).isPanic = false := by
+  cases v <;> rfl
+
+/-- only the dynamic type of the target matters: its elements, metadata and cursor are ignored -/
+theorem convertTo_list (src ys : List TVal) (m' md : TVal) (c : Option Pos) :
+    convertTo src (.list ys m' c) md = .ok (.list src md (some zeroPos)) := rfl
+theorem convertTo_vec (src ys : List TVal) (m' md : TVal) (c : Option Pos) :
+    convertTo src (.vec ys m' c) md = .ok (.vec src md (some zeroPos)) := rfl
+
+/-- round trip 1: converting to a list / vector and back gives the very elements and metadata -/
+theorem convertTo_convertFrom (src : List TVal) (to md : TVal) (h : isList to = true ∨ isVec to = true) :
+    (convertTo src to md).bind convertFrom = .ok (src, md) := by
+  cases to <;> simp_all [isList, isVec, convertTo, convertFrom, Out.bind]
+
+/-- round trip 2: a list / vector taken apart and rebuilt after its own example is itself — except for the
+    cursor, which `ConvertTo` replaces by a fresh zero `&Position{}` -/
+theorem convertFrom_convertTo (xs : List TVal) (m : TVal) (c : Option Pos) :
+    ((convertFrom (.list xs m c)).bind fun p => convertTo p.1 (.list xs m c) p.2) = .ok (.list xs m (some zeroPos)) ∧
+    ((convertFrom (.vec xs m c)).bind fun p => convertTo p.1 (.vec xs m c) p.2) = .ok (.vec xs m (some zeroPos)) :=
+  ⟨rfl, rfl⟩
+
+/-- list → vector (what `vec` does by hand) keeps elements and metadata -/
+theorem convert_list_to_vec (xs ys : List TVal) (m m' : TVal) (c c' : Option Pos) :
+    ((convertFrom (.list xs m c)).bind fun p => convertTo p.1 (.vec ys m' c') p.2) = .ok (.vec xs m (some zeroPos)) := rfl
+
+theorem toSetLoop_of_strs (src : List TVal) (m ks : List String) (h : allStrs src = some ks) :
+    toSetLoop src m = .ok (sinsertAll ks m) := by
+  induction src generalizing m ks with
+  | nil => simp [allStrs] at h; subst h; rfl
+  | cons x r ih =>
+    cases x with
+    | str k =>
+      simp only [allStrs, Option.map_eq_some_iff] at h
+      obtain ⟨ks', hks, rfl⟩ := h
+      simpa [toSetLoop, assertString, Out.bind, sinsertAll] using ih _ ks' hks
+    | _ => simp [allStrs] at h
+
+/-- the `Set` arm: an element that is not a Go string makes the unchecked `k.(string)` PANIC (no error return) -/
+theorem toSetLoop_panics (src : List TVal) (m : List String) (h : allStrs src = none) :
+    toSetLoop src m = .panic .assert "ConvertTo:k.(string)" := by
+  induction src generalizing m with
+  | nil => simp [allStrs] at h
+  | cons x r ih =>
+    cases x with
+    | str k =>
+      simp only [allStrs, Option.map_eq_none_iff] at h
+      simpa [toSetLoop, assertString, Out.bind] using ih _ h
+    | _ => simp [toSetLoop, assertString, Out.bind]
+
+/-- `ConvertTo` to a set: succeeds iff every element is a Go string, PANICS otherwise; the result always has a
+    non-nil map and NO metadata (the `meta` argument is dropped in this arm) -/
+theorem convertTo_set (src : List TVal) (ks : Option (List String)) (m' md : TVal) :
+    convertTo src (.set ks m') md =
+      (match allStrs src with
+       | some ss => .ok (.set (some (sinsertAll ss [])) .nil)
+       | none => .panic .assert "ConvertTo:k.(string)") := by
+  cases h : allStrs src with
+  | some ss => simp [convertTo, toSetLoop_of_strs src [] ss h, Out.map, Out.bind]
+  | none => simp [convertTo, toSetLoop_panics src [] h, Out.map, Out.bind]
+
+theorem convertTo_set_panics_iff (src : List TVal) (ks : Option (List String)) (m' md : TVal) :
+    (convertTo src (.set ks m') md).isPanic = true ↔ ∃ x ∈ src, ∀ s, x ≠ .str s := by
+  rw [convertTo_set]
+  cases h : allStrs src with
+  | some ss =>
+    have := (allStrs_isSome_iff src).mp ⟨ss, h⟩
+    simp only [Out.isPanic, Bool.false_eq_true, false_iff, not_exists, not_and]
+    intro x hx hne
+    obtain ⟨s, hs⟩ := this x hx
+    exact hne s hs
+  | none =>
+    simp only [Out.isPanic, true_iff]
+    apply Classical.byContradiction
+    intro hne
+    have hall : ∀ x ∈ src, ∃ s, x = .str s := by
+      intro x hx
+      apply Classical.byContradiction
+      intro hx'
+      exact hne ⟨x, hx, fun s hs => hx' ⟨s, hs⟩⟩
+    obtain ⟨ss, hss⟩ := (allStrs_isSome_iff src).mpr hall
+    rw [hss] at h; cases h
+
+/-- `ConvertTo` returns an error only for a target that is not a set, a list, a vector -/
+theorem convertTo_err_iff (src : List TVal) (to md : TVal) (e : Err) :
+    convertTo src to md = .err e ↔
+      (∀ ks m, to ≠ .set ks m) ∧ isList to = false ∧ isVec to = false ∧ e = .convTo (typeName to) := by
+  cases to with
+  | set ks m =>
+    rw [convertTo_set]
+    cases allStrs src <;> simp
+  | _ => simp [convertTo, isList, isVec, eq_comm]
+
+theorem allStrs_map_str (ks : List String) : allStrs (ks.map TVal.str) = some ks := by
+  induction ks with
+  | nil => rfl
+  | cons k r ih => simp [allStrs, ih]
+
+/-- a set taken apart with `ConvertFrom` can always be rebuilt (no panic): same members, non-nil map, metadata
+    LOST -/
+theorem convertFrom_convertTo_set (ks : Option (List String)) (m : TVal) :
+    ((convertFrom (.set ks m)).bind fun p => convertTo p.1 (.set ks m) p.2) =
+      .ok (.set (some (sinsertAll (setKeys ks) [])) .nil) := by
+  simp [convertFrom, Out.bind, convertTo_set, allStrs_map_str]
+
+theorem convertTo_never_panics_on_strings (ss : List String) (to md : TVal) :
+    (convertTo (ss.map .str) to md).isPanic = false := by
+  cases to with
+  | set ks m => rw [convertTo_set, allStrs_map_str]; rfl
+  | _ => rfl
+
+/-! ### `Apply` (C04) -/
+
+section Apply
+variable {ε : Type} (envOf : Nat → ε) (genEnv : ε → TVal → TVal → Out ε) (eval : TVal → ε → Out TVal)
+  (callFn callRaw : Nat → List TVal → Out TVal)
+
+/-- a builtin (`Func`) is called with exactly the arguments; its metadata plays no part -/
+theorem apply_builtin (id : Nat) (md : TVal) (a : List TVal) :
+    apply envOf genEnv eval callFn callRaw (.builtin (some id) md) a = callFn id a := rfl
+
+/-- so is a bare `func([]MalType) (MalType, error)` -/
+theorem apply_rawfn (id : Nat) (a : List TVal) :
+    apply envOf genEnv eval callFn callRaw (.rawfn (some id)) a = callRaw id a := rfl
+
+/-- a closure: `GenEnv(f.Env, f.Params, List{Val: a, Cursor: f.Cursor})` binds — the argument LIST carries the
+    closure's cursor and no metadata — then `Eval(f.Exp, env)`; an error of `GenEnv` is returned as it is and the
+    body is not evaluated.  `IsMacro` and `Meta` play no part. -/
+theorem apply_closure (mf : MalFn TVal) (a : List TVal) (hg : mf.hasGenEnv = true) (he : mf.hasEval = true) :
+    apply envOf genEnv eval callFn callRaw (.fn mf) a =
+      (genEnv (envOf mf.env) mf.params (.list a .nil mf.cur)).bind fun env => eval mf.exp env := by
+  simp [apply, hg, he]
+
+theorem apply_closure_bind_error (mf : MalFn TVal) (a : List TVal) (e : Err) (hg : mf.hasGenEnv = true)
+    (h : genEnv (envOf mf.env) mf.params (.list a .nil mf.cur) = .err e) :
+    apply envOf genEnv eval callFn callRaw (.fn mf) a = .err e := by
+  simp [apply, hg, h, Out.bind]
+
+/-- a macro is applied like the function it was made from -/
+theorem apply_setMacro (mf : MalFn TVal) (a : List TVal) :
+    apply envOf genEnv eval callFn callRaw (setMacro mf) a = apply envOf genEnv eval callFn callRaw (.fn mf) a := rfl
+
+/-- anything else: the error (with the `%T` of the value), never a panic, and no callee runs -/
+theorem apply_other (v : TVal) (a : List TVal)
+    (h : dynType v ≠ some .malFunc ∧ dynType v ≠ some .func ∧ dynType v ≠ some .rawFunc) :
+    apply envOf genEnv eval callFn callRaw v a = .err (.badApply (typeName v)) := by
+  cases v <;> simp_all [apply, dynType]
+
+theorem apply_nil (a : List TVal) :
+    apply envOf genEnv eval callFn callRaw .nil a = .err (.badApply "<nil>") := rfl
+
+/-- a nil func FIELD is called all the same: `MalFunc{}` / `Func{}` / a typed-nil func value panic in `Apply` -/
+theorem apply_nil_fields (mf : MalFn TVal) (md : TVal) (a : List TVal) (hg : mf.hasGenEnv = false) :
+    (apply envOf genEnv eval callFn callRaw (.fn mf) a).isPanic = true ∧
+    (apply envOf genEnv eval callFn callRaw (.builtin none md) a).isPanic = true ∧
+    (apply envOf genEnv eval callFn callRaw (.rawfn none) a).isPanic = true := by
+  simp [apply, hg, Out.isPanic]
+
+/-- with callees that do not panic themselves, `Apply` panics ONLY on a nil func field -/
+theorem apply_panics_iff (v : TVal) (a : List TVal)
+    (hge : ∀ e p l, (genEnv e p l).isPanic = false) (hev : ∀ x e, (eval x e).isPanic = false)
+    (hfn : ∀ i l, (callFn i l).isPanic = false) (hraw : ∀ i l, (callRaw i l).isPanic = false) :
+    (apply envOf genEnv eval callFn callRaw v a).isPanic = true ↔
+      (∃ mf, v = .fn mf ∧ (mf.hasGenEnv = false ∨
+          (mf.hasEval = false ∧ (genEnv (envOf mf.env) mf.params (.list a .nil mf.cur)).isOk = true))) ∨
+      (∃ md, v = .builtin none md) ∨ v = .rawfn none := by
+  cases v with
+  | fn mf =>
+    cases hg : mf.hasGenEnv with
+    | false => simp [apply, hg, Out.isPanic]
+    | true =>
+      have := hge (envOf mf.env) mf.params (.list a .nil mf.cur)
+      cases hr : genEnv (envOf mf.env) mf.params (.list a .nil mf.cur) with
+      | ok env =>
+        cases he : mf.hasEval with
+        | false => simp [apply, hg, hr, he, Out.bind, Out.isPanic, Out.isOk]
+        | true => simp [apply, hg, hr, he, Out.bind, Out.isOk, hev]
+      | err e => simp [apply, hg, hr, Out.bind, Out.isPanic, Out.isOk]
+      | panic k s => rw [hr] at this; cases this
+  | builtin f md =>
+    cases f with
+    | none => simp [apply, Out.isPanic]
+    | some id => simp [apply, hfn]
+  | rawfn f =>
+    cases f with
+    | none => simp [apply, Out.isPanic]
+    | some id => simp [apply, hraw]
+  | _ => simp [apply, Out.isPanic]
+
+end Apply
+
+/-! ### `Line`, `Token.GetPosition` -/
+
+theorem line_nil (m : String) : line none m = ": " ++ m := by
+  simp [line, Position.toString]
+
+theorem line_some (p : Pos) (m : String) :
+    line (some p) m = Position.stringModule (some p) ++ "§" ++ Position.stringPosition (some p) ++ ": " ++ m := rfl
+
+theorem tokenGetPosition_eq (t : Token) : tokenGetPosition t = t.cursor := rfl
+
+/-! ### non-vacuity: closed examples, checked by evaluation -/
+
+section Examples
+private def L (xs : List TVal) : TVal := .list xs .nil none
+private def V (xs : List TVal) : TVal := .vec xs .nil none
+private def kwA : TVal := .str (newKeyword "a")
+
+-- NewHashMap: later duplicates win; keywords are keys; the three error classes; odd beats bad key
+example : newHashMap (L [.str "a", .int 1, .str "b", .int 2, .str "a", .int 3]) =
+    .ok (.map [("a", .int 3), ("b", .int 2)] .nil) := rfl
+example : newHashMap (V [kwA, .nil]) = .ok (.map [(newKeyword "a", .nil)] .nil) := rfl
+example : newHashMap (L []) = .ok (.map [] .nil) := rfl
+example : newHashMap (V [.str "a", .int 1, .str "b"]) = .err .oddArgs := rfl
+example : newHashMap (V [.int 1, .int 2, .int 3]) = .err .oddArgs := rfl
+example : newHashMap (L [.str "a", .int 1, .sym "k", .int 2]) = .err (.badKey "types.Symbol") := rfl
+example : newHashMap (L [.nil, .int 1]) = .err (.badKey "<nil>") := rfl
+example : newHashMap .nil = .err .notSeq := rfl
+example : newHashMap (.map [("a", .int 1)] .nil) = .err .notSeq := rfl
+example : (hmLoop [.str "a"] []).isPanic = true := by decide   -- the arm `NewHashMap` can never reach
+example : lastVal "a" [("a", .int 1), ("b", .int 2), ("a", .int 3)] = some (.int 3) := rfl
+
+-- NewSet: nil is the zero set (nil map); a set / a map / a string are NOT accepted; non-string member
+example : newSet .nil = .ok (.set none .nil) := rfl
+example : newSet (L []) = .ok (.set (some []) .nil) := rfl
+example : newSet (V [.str "a", kwA, .str "a"]) = .ok (.set (some ["a", newKeyword "a"]) .nil) := rfl
+example : newSet (.set (some ["a"]) .nil) = .err .notSeq := rfl
+example : newSet (.str "abc") = .err .notSeq := rfl
+example : newSet (L [.str "a", .int 1]) = .err .badSetItem := rfl
+
+-- GetSlice / Sequential_Q; the foreign `container/list.List` is "sequential" by name but has no slice
+example : getSlice (V [.int 1]) = .ok [.int 1] := rfl
+example : getSlice (.set none .nil) = .err .notSeq := rfl
+example : sequentialQ (L []) = .ok true := by decide
+example : sequentialQ .nil = .ok false := by decide
+example : sequentialQ (.map [] .nil) = .ok false := by decide
+example : sequentialQ (.other "list.List" "List") = .ok true := by decide
+example : (getSlice (.other "list.List" "List")).isOk = false := by decide
+example : sequentialQ (.other "*types.List" "") = .ok false := by decide
+
+-- predicates
+example : keywordQ kwA = .ok true := by decide
+example : stringQ kwA = .ok false := by decide
+example : stringQ (.str "") = .ok true := by decide
+example : keywordQ (.str "ʞ") = .ok true := by decide
+example : keywordQ (.str "aʞ") = .ok false := by decide
+example : keywordQ (.sym "ʞa") = .ok false := by decide
+example : newKeyword (newKeyword "a") = "ʞʞa" := by decide
+example : q .any .nil = false := by decide
+example : q .any (.int 0) = true := by decide
+example : q .int (.int 3) = true := by decide
+example : q .list (V []) = false := by decide
+example : q (.other "float32") (.other "float32" "float32") = true := by decide
+example : nilQ (.bool false) = false := by decide
+example : trueQ (.int 1) = false := by decide
+example : falseQ (.bool false) = true := by decide
+end Examples
+
+section Examples2
+private def L' (xs : List TVal) : TVal := .list xs .nil none
+private def md1 : TVal := .map [("doc", .str "d")] .nil
+private def pos1 : Pos := { module := some "m.lisp", beginRow := 1, beginCol := 2, row := 1, col := 9 }
+
+-- ConvertFrom / ConvertTo
+example : convertFrom (.list [.int 1] md1 (some pos1)) = .ok ([.int 1], md1) := rfl
+example : convertFrom (.set (some ["a", "b"]) md1) = .ok ([.str "a", .str "b"], md1) := rfl
+example : convertFrom (.set none .nil) = .ok ([], .nil) := rfl
+example : convertFrom (.map [] .nil) = .err (.convFrom "types.HashMap") := rfl
+example : convertFrom .nil = .err (.convFrom "<nil>") := rfl
+example : convertTo [.int 1] (.vec [] .nil none) md1 = .ok (.vec [.int 1] md1 (some zeroPos)) := rfl
+example : convertTo [.str "a", .str "b", .str "a"] (.set none .nil) md1 = .ok (.set (some ["a", "b"]) .nil) := rfl
+example : convertTo [] (.map [] .nil) .nil = .err (.convTo "types.HashMap") := rfl
+-- THE PANIC: `ConvertTo` to a set with a non-string element (unchecked `k.(string)`)
+example : (convertTo [.int 1] (.set (some []) .nil) .nil).isPanic = true := by decide
+example : (convertTo [.str "a", .nil] (.set none .nil) .nil).isPanic = true := by decide
+example : (convertTo [.str "a", .sym "b"] (.set none .nil) .nil).isPanic = true := by decide
+example : (convertTo [.int 1] (L' []) .nil).isPanic = false := by decide
+
+-- SetMacro / GetMacro
+private def f0 : MalFn TVal :=
+  { hasEval := true, hasGenEnv := true, isMacro := false, env := 7, params := .vec [.sym "x"] .nil none,
+    exp := .sym "x", md := md1, cur := some pos1 }
+example : getMacro f0 = false := by decide
+example : setMacro f0 = .fn { f0 with isMacro := true } := rfl
+
+-- Apply, with callees that report what they were given
+private def eo (n : Nat) : List TVal := [.int n]
+private def ge (e : List TVal) (params args : TVal) : Out (List TVal) := .ok (e ++ [params, args])
+private def ev (exp : TVal) (env : List TVal) : Out TVal := .ok (.list (exp :: env) .nil none)
+private def geFail (_ : List TVal) (_ _ : TVal) : Out (List TVal) := .err (.callee "genenv")
+private def cf (id : Nat) (a : List TVal) : Out TVal := .ok (.list (.int id :: a) .nil none)
+private def cr (_ : Nat) (_ : List TVal) : Out TVal := .err (.callee "raw")
+
+example : apply eo ge ev cf cr (.fn f0) [.int 1, .int 2] =
+    .ok (.list [.sym "x", .int 7, .vec [.sym "x"] .nil none, .list [.int 1, .int 2] .nil (some pos1)] .nil none) := rfl
+example : apply eo geFail ev cf cr (.fn f0) [.int 1] = .err (.callee "genenv") := rfl
+example : apply eo ge ev cf cr (.builtin (some 3) md1) [.str "a"] = .ok (.list [.int 3, .str "a"] .nil none) := rfl
+example : apply eo ge ev cf cr (.rawfn (some 0)) [] = .err (.callee "raw") := rfl
+example : apply eo ge ev cf cr (.int 3) [] = .err (.badApply "int") := rfl
+example : apply eo ge ev cf cr (.other "types.ExternalCall" "ExternalCall") [] = .err (.badApply "types.ExternalCall") := rfl
+example : (apply eo ge ev cf cr (.fn { f0 with hasGenEnv := false }) []).isPanic = true := by decide
+example : (apply eo ge ev cf cr (.fn { f0 with hasEval := false }) []).isPanic = true := by decide
+example : (apply eo geFail ev cf cr (.fn { f0 with hasEval := false }) []).isPanic = false := by decide
+example : (apply eo ge ev cf cr (.builtin none .nil) []).isPanic = true := by decide
+example : (apply eo ge ev cf cr (.rawfn none) []).isPanic = true := by decide
+
+-- Line
+example : line none "boom" = ": boom" := by decide
+example : line (some pos1) "boom" = "m.lisp§1…1,2…9: boom" := by decide
+end Examples2
+
 end LispModel.TyCtor
